@@ -8,7 +8,7 @@ use serde_json::{json, Value};
 pub fn meta() -> Meta {
     Meta {
         level: "exploration",
-        rule: "all ordered pairs of the lexeme instances (every keyword and type name of SyntaxKind, 24 punctuation characters, integer spellings in 4 radices with prefix cases and underscores, float shapes, number+unit for 7 units glued and spaced, ASCII/underscore/Unicode identifiers including keyword-prefixed ones, hardware qubits, bit strings, quoted strings, comments, pragma and annotation lines, the version header) x 7 separator flavours (nothing where the pair cannot fuse), all triples with the default separator in the thorough tier, and every instance alone; each case enumerated once; non-trivial = both lexemes of the pair are non-trivia; outcomes = distinct expected kind sequences",
+        rule: "all ordered pairs of the lexeme instances (every keyword and type name of SyntaxKind, 24 punctuation characters, integer spellings in 4 radices with prefix cases and underscores, float shapes, number+unit for 7 units glued and spaced, ASCII/underscore/Unicode identifiers including keyword-prefixed ones, hardware qubits, bit strings, quoted strings, comments, pragma and annotation lines, the version header) x 7 separator flavours (nothing where the pair cannot fuse), all triples with the default separator in the thorough tier, and every instance alone; every block comment whose body has at most 5 (thorough: 7) characters over {/, *, blank, c, line break, é} and which a reference scanner reads as one whole comment, between identifiers, alone, before `*` and twice (LEX/comment-bodies); each case enumerated once; non-trivial = both lexemes of the pair are non-trivia; outcomes = distinct expected kind sequences",
         assumptions: vec![
             "expected kinds come from a hand-written table in the harness (keywords and types by the naming convention <NAME>_KW / <NAME>_TY); the bare words OPENQASM and pragma are keyword lexemes only where no white space follows them (with white space they open a version header / a pragma line, which are separate instances)",
             "must_separate is a conservative character-class rule: extra separators are always allowed by the statement",
@@ -89,7 +89,7 @@ pub fn instances() -> Vec<Inst> {
     for t in ["\"abc\"", "\"a\\\"b\"", "'a b'", "\"stdgates.inc\"", "\"é😀\"", "\"012\"", "'a\\'b'", "'\\''", "\"a\\\\\"", "'a\\\\'", "'\"'", "\"'\""] {
         v.push(inst(t, "STRING"));
     }
-    for t in ["/* c */", "/* /* n */ */", "/**/", "/* \n */", "/** doc **/", "/***/", "/****/", "/* x ***/", "/*********/", "/* a **/"] {
+    for t in ["/* c */", "/* /* n */ */", "/*/ c */", "/**/", "/* \n */", "/** doc **/", "/***/", "/****/", "/* x ***/", "/*********/", "/* a **/"] {
         v.push(Inst { text: t.into(), expect: vec![], line: false, header: false });
     }
     v.push(Inst { text: "// c".into(), expect: vec![], line: true, header: false });
@@ -426,9 +426,107 @@ impl Space for Pairs {
     }
 }
 
+/// Every block comment `/*` body `*/` with a body of at most `max_len` characters over
+/// {`/`, `*`, blank, `c`, line break, `é`} that the reference scanner (nesting comments, written
+/// here from the definition, not from the lexer) reads as exactly one terminated comment ending
+/// at the end of the text: written between two identifiers, alone, and before `*` (so that a
+/// comment that ends early leaves visible lexemes behind).
+pub struct CommentBodies {
+    pub max_len: usize,
+}
+
+const BODY_ATOMS: [char; 6] = ['/', '*', ' ', 'c', '\n', 'é'];
+
+/// Reference: does `text` (starting with `/*`) consist of exactly one terminated comment?
+fn one_whole_comment(text: &str) -> bool {
+    let c: Vec<char> = text.chars().collect();
+    if c.len() < 4 || c[0] != '/' || c[1] != '*' {
+        return false;
+    }
+    let mut depth = 1usize;
+    let mut i = 2;
+    while i < c.len() {
+        if c[i] == '/' && c.get(i + 1) == Some(&'*') {
+            depth += 1;
+            i += 2;
+        } else if c[i] == '*' && c.get(i + 1) == Some(&'/') {
+            depth -= 1;
+            i += 2;
+            if depth == 0 {
+                return i == c.len();
+            }
+        } else {
+            i += 1;
+        }
+    }
+    false
+}
+
+impl CommentBodies {
+    fn check_body(&self, body: &str, ctx: &mut Ctx) {
+        let comment = format!("/*{}*/", body);
+        if !one_whole_comment(&comment) {
+            return;
+        }
+        let a = inst("a", "IDENT");
+        let b = inst("b", "IDENT");
+        let star = inst("*", "STAR");
+        for (text, seq) in [(format!("a{}b", comment), vec![&a, &b]), (comment.clone(), vec![]), (format!("{}*", comment), vec![&star]), (format!("b {} {}a", comment, comment), vec![&b, &a])] {
+            if ctx.begin(|| json!({"text": text})) {
+                check_text(&text, &seq, ctx);
+                if seq.len() == 2 {
+                    ctx.mark_nontrivial(fnv_str(&text));
+                }
+            }
+        }
+    }
+    fn rec(&self, body: &mut String, ctx: &mut Ctx) {
+        self.check_body(body, ctx);
+        if body.chars().count() >= self.max_len {
+            return;
+        }
+        for ch in BODY_ATOMS {
+            body.push(ch);
+            self.rec(body, ctx);
+            body.pop();
+        }
+    }
+}
+
+impl Space for CommentBodies {
+    fn name(&self) -> String {
+        format!("LEX/comment-bodies/len<={}", self.max_len)
+    }
+    fn describe(&self) -> Value {
+        json!({"space": "LEX/comment-bodies", "atoms": BODY_ATOMS.iter().map(|c| c.to_string()).collect::<Vec<_>>(), "max_len": self.max_len,
+               "note": "bodies the reference scanner does not read as one whole terminated comment are pruned (they are not well-formed lexemes)"})
+    }
+    fn num_blocks(&self) -> u64 {
+        1 + BODY_ATOMS.len() as u64
+    }
+    fn run_block(&self, block: u64, ctx: &mut Ctx) {
+        if block == 0 {
+            self.check_body("", ctx);
+            return;
+        }
+        let mut body = BODY_ATOMS[block as usize - 1].to_string();
+        self.rec(&mut body, ctx);
+    }
+    fn replay(&self, case: &Value, ctx: &mut Ctx) {
+        Pairs { insts: vec![], triples: false }.replay(case, ctx);
+    }
+}
+
 pub fn spaces(tier: Tier, _seed: u64) -> Vec<Box<dyn Space>> {
-    let _ = tier;
-    vec![Box::new(Pairs { insts: instances_with_units(), triples: false }), Box::new(Pairs { insts: instances(), triples: true })]
+    let max_len = match tier {
+        Tier::Quick => 5,
+        Tier::Thorough => 7,
+    };
+    vec![
+        Box::new(Pairs { insts: instances_with_units(), triples: false }),
+        Box::new(Pairs { insts: instances(), triples: true }),
+        Box::new(CommentBodies { max_len }),
+    ]
 }
 
 pub fn self_check() -> Result<(), String> {
